@@ -146,7 +146,7 @@ fn width(c: char, unit: Unit) -> usize {
 }
 
 /// (line, character in `unit`) -> byte offset
-fn offset_of(text: &str, line: usize, ch: usize, unit: Unit) -> Option<usize> {
+pub fn offset_of(text: &str, line: usize, ch: usize, unit: Unit) -> Option<usize> {
     let mut cur_line = 0;
     let mut off = 0;
     for l in text.split_inclusive('\n') {
@@ -374,9 +374,39 @@ fn check_tape(tape: &[u8], gates: &Gates, stats: &mut Stats, counting: bool) -> 
     }
     junked[n_docs - 1] = lexical_error;
     let asked: Vec<bool> = (0..n_docs).map(|i| i + 1 == n_docs || choice.ratio(1, 2)).collect();
-    let uri = "file:///w/doc.st";
+    // the document is usually one that exists nowhere on disk; now and then it names a file that
+    // does exist - by its plain path, or through a directory that is a symbolic link -, whose
+    // contents on disk are an older, shorter text, and the folder may be the workspace folder of the
+    // session: the answer is about the text the editor sent, never about the file
+    let mut _scratch: Option<Scratch> = None;
+    let mut init = lsp_initialize(0);
+    let uri_string: String = if choice.ratio(1, 8) && gates.want("DOCUMENT_THAT_EXISTS_ON_DISK") {
+        let sc = Scratch::new("c15disk");
+        sc.write("real/doc.st", b"PROGRAM stale\nVAR\nold : INT;\nEND_VAR\nold := 1;\nEND_PROGRAM\n");
+        let through_link = choice.flag();
+        let dirname = if through_link {
+            let _ = std::os::unix::fs::symlink(sc.path.join("real"), sc.path.join("link"));
+            "link"
+        } else {
+            "real"
+        };
+        let folder = format!("file://{}/{}", sc.path.to_string_lossy(), dirname);
+        if choice.flag() {
+            init["params"]["workspaceFolders"] = json!([{"uri": folder, "name": "w"}]);
+            init["params"]["rootUri"] = json!(folder);
+        }
+        if counting {
+            stats.class(if through_link { "uri.existing-file-through-symlink" } else { "uri.existing-file" });
+        }
+        let u = format!("{}/doc.st", folder);
+        _scratch = Some(sc);
+        u
+    } else {
+        "file:///w/doc.st".to_string()
+    };
+    let uri: &str = &uri_string;
     let other = "file:///w/other.st";
-    let mut msgs = vec![lsp_initialize(0), lsp_initialized()];
+    let mut msgs = vec![init, lsp_initialized()];
     // other documents of the session: none, one opened first, or up to three whose names sort before
     // and after the document's, opened before it, between its versions or after it (a store that
     // is kept in some order must find every document whatever the order of arrival)
